@@ -46,6 +46,10 @@ pub struct MTask {
     pub named: bool,
     /// SemCancel: the polled acquisition completed and its permits are about to be released again
     pub holding: bool,
+    /// SemTakeAwait: permits of the acquisition taken over
+    pub seen_permits: usize,
+    /// custom label (inherited from the parent at spawn)
+    pub vlabel: Option<u64>,
 }
 
 #[derive(Clone, Debug, PartialEq, Eq, PartialOrd, Ord, Hash, Default)]
@@ -112,14 +116,28 @@ pub struct MSem {
     pub closed: bool,
     pub queue: Vec<(usize, usize)>,
     pub granted: Vec<(usize, usize)>,
+    /// a parked Acquire (SemStash): (task that created and polled it, permits); its queue entry is
+    /// keyed STASH_KEY until another task takes it over
+    pub stash: Option<(usize, usize)>,
+    /// scratch: set by `micro` before every semaphore operation = "the parked acquisition's owner has finished"
+    pub stale_now: bool,
 }
 
+/// pseudo task id under which a parked acquisition waits
+pub const STASH_KEY: usize = 1000;
+
 impl MSem {
-    fn grant_from_front(&mut self) {
+    /// `stale`: the task that polled the parked acquisition last has finished; such a waiter is
+    /// discarded when it reaches the head (nobody is awaiting it), the future re-queues when polled
+    fn grant_from_front_ex(&mut self, stale: bool) {
         if !self.fair {
             return;
         }
         while let Some((t, n)) = self.queue.first().cloned() {
+            if t == STASH_KEY && stale {
+                self.queue.remove(0);
+                continue;
+            }
             if n <= self.avail {
                 self.avail -= n;
                 self.queue.remove(0);
@@ -128,6 +146,10 @@ impl MSem {
                 break;
             }
         }
+    }
+    fn grant_from_front(&mut self) {
+        let stale = self.stale_now;
+        self.grant_from_front_ex(stale);
     }
     fn release(&mut self, k: usize) {
         self.avail += k;
@@ -239,6 +261,8 @@ pub fn init_state(p: &Program) -> MState {
             catch_snap: None,
             named: false,
             holding: false,
+            seen_permits: 0,
+            vlabel: None,
         });
     }
     MState {
@@ -274,18 +298,26 @@ fn lock_tag(poisoned: bool) -> &'static str {
 /// Execute micro-op `j` of `op` for task `t` in state `s`. None = guard false.
 pub fn micro(s: &MState, t: usize, op: &Op, j: u8, uv: u64) -> Option<Vec<Out>> {
     let mut n = s.clone();
+    for sm in n.sem.iter_mut() {
+        sm.stale_now = match sm.stash {
+            Some((owner, _)) => s.tasks[owner].st == TSt::Done,
+            None => false,
+        };
+    }
     let done = |n: MState, r: Res| Some(vec![Out::Done(n, r)]);
     match op {
         Op::Spawn(b) => {
             n.tasks[*b].st = TSt::Idle;
             n.tasks[*b].pc = 0;
             n.tasks[*b].named = true;
+            n.tasks[*b].vlabel = s.tasks[t].vlabel;
             n.tasks[t].handles.push((*b, false));
             done(n, Res::Any)
         }
         Op::ScopedSpawn(b) => {
             n.tasks[*b].st = TSt::Idle;
             n.tasks[*b].pc = 0;
+            n.tasks[*b].vlabel = s.tasks[t].vlabel;
             done(n, Res::Any)
         }
         Op::ScopeEnd(bs) => {
@@ -359,6 +391,88 @@ pub fn micro(s: &MState, t: usize, op: &Op, j: u8, uv: u64) -> Option<Vec<Out>> 
             let a = n.sem[*sm].avail;
             done(n, Res::Exact(a.to_string()))
         }
+        Op::SemStash(sm, k) => {
+            if s.tasks[t].holding {
+                n.tasks[t].holding = false;
+                n.sem[*sm].release(*k);
+                let a = n.sem[*sm].avail;
+                return done(n, Res::Exact(format!("acquired:{}", a)));
+            }
+            if s.sem[*sm].stash.is_some() {
+                return done(n, ex("skip"));
+            }
+            match n.sem[*sm].arrive(STASH_KEY, *k) {
+                Some(true) => {
+                    n.tasks[t].holding = true;
+                    Some(vec![Out::Cont(n)])
+                }
+                Some(false) => {
+                    let a = n.sem[*sm].avail;
+                    done(n, Res::Exact(format!("err:{}", a)))
+                }
+                None => {
+                    n.sem[*sm].stash = Some((t, *k));
+                    let a = n.sem[*sm].avail;
+                    done(n, Res::Exact(format!("stashed:{}", a)))
+                }
+            }
+        }
+        Op::SemTakeAwait(sm) => {
+            if s.tasks[t].holding {
+                n.tasks[t].holding = false;
+                let k = s.tasks[t].seen_permits;
+                n.sem[*sm].release(k);
+                let a = n.sem[*sm].avail;
+                return done(n, Res::Exact(format!("ok:{}", a)));
+            }
+            if j == 0 {
+                let (_, k) = match s.sem[*sm].stash {
+                    Some(x) => x,
+                    None => return done(n, ex("skip")),
+                };
+                n.sem[*sm].stash = None;
+                n.sem[*sm].stale_now = false;
+                n.tasks[t].seen_permits = k;
+                // the parked acquisition is taken over by this task
+                let mut found = false;
+                let semm = &mut n.sem[*sm];
+                for e in semm.queue.iter_mut() {
+                    if e.0 == STASH_KEY {
+                        e.0 = t;
+                        found = true;
+                    }
+                }
+                for e in semm.granted.iter_mut() {
+                    if e.0 == STASH_KEY {
+                        e.0 = t;
+                        found = true;
+                    }
+                }
+                if !found && !n.sem[*sm].closed {
+                    // it was discarded as stale: polling it again is a fresh arrival
+                    match n.sem[*sm].arrive(t, k) {
+                        Some(true) => {
+                            n.tasks[t].holding = true;
+                        }
+                        Some(false) => {}
+                        None => {}
+                    }
+                }
+                return Some(vec![Out::Cont(n)]);
+            }
+            let k = s.tasks[t].seen_permits;
+            match n.sem[*sm].repoll(t, k) {
+                Some(true) => {
+                    n.tasks[t].holding = true;
+                    Some(vec![Out::Cont(n)])
+                }
+                Some(false) => {
+                    let a = n.sem[*sm].avail;
+                    done(n, Res::Exact(format!("err:{}", a)))
+                }
+                None => None,
+            }
+        }
         Op::SemCancel(sm, k, polls) => {
             // micro-ops: 0 = first poll; with two polls: 1 = scheduling point, 2 = second poll; last = drop.
             // A poll that completes the acquisition is followed by a separate release micro-op.
@@ -393,6 +507,12 @@ pub fn micro(s: &MState, t: usize, op: &Op, j: u8, uv: u64) -> Option<Vec<Out>> 
             }
         }
         Op::ResetSteps => done(n, ex("")),
+        Op::LabelSet => {
+            let old = s.tasks[t].vlabel.map(|v| v.to_string()).unwrap_or("none".into());
+            n.tasks[t].vlabel = Some(uv);
+            done(n, Res::Exact(old))
+        }
+        Op::LabelGet => done(n, Res::Exact(s.tasks[t].vlabel.map(|v| v.to_string()).unwrap_or("none".into()))),
         Op::TlsWith(_) => done(n, Res::Any),
         Op::ThreadInfo => {
             if t == 0 {
@@ -850,12 +970,32 @@ pub fn guard_of_current(p: &Program, s: &MState, t: usize) -> bool {
     }
 }
 
+/// Operations whose blocking does NOT commute with the other operations on the same object (a
+/// FIFO position or a rendezvous is taken by arriving): a choice point must precede their arrival,
+/// so a task that has just started one must be offered at least until it has had a step of its own.
+fn arrival_is_visible(s: &MState, op: &Op) -> bool {
+    match op {
+        Op::Recv(_) | Op::TryRecv(_) | Op::Send(_) | Op::TrySend(_) => true,
+        Op::SemAcquire(sm, _) | Op::SemCancel(sm, _, _) | Op::SemStash(sm, _) => s.sem[*sm].fair,
+        _ => false,
+    }
+}
+
 /// Must task `t` be offered as runnable in `s`?
 pub fn enabled(p: &Program, s: &MState, t: usize) -> bool {
     match &s.tasks[t].st {
         TSt::NotSpawned | TSt::Done => false,
         TSt::Idle | TSt::Exiting => true,
-        TSt::Pending { .. } => guard_of_current(p, s, t),
+        TSt::Pending { micro, tries } => {
+            if *micro == 0 && *tries == 0 {
+                if let Some((op, _)) = op_for_label(p, t, &s.tasks[t].label) {
+                    if arrival_is_visible(s, &op) {
+                        return true;
+                    }
+                }
+            }
+            guard_of_current(p, s, t)
+        }
     }
 }
 
@@ -882,6 +1022,9 @@ pub struct Mismatch {
 
 #[derive(Clone, Debug, Default)]
 pub struct LockstepStats {
+    /// operation kinds that completed without any scheduling decision between their start and
+    /// their completion (kind -> (count, example))
+    pub same_step: BTreeMap<String, (u64, String)>,
     pub max_states: usize,
     pub steps: usize,
     pub multi_effect_steps: u64,
@@ -1254,6 +1397,22 @@ pub fn lockstep(p: &Program, ex: &ExecTrace, ending: Option<&str>) -> Result<Loc
         let evs: Vec<&Event> = by_step.get(&((k + 1) as u32)).cloned().unwrap_or_default();
         let evs_t: Vec<&Event> = evs.iter().filter(|e| e.task == chosen).cloned().collect();
         prev_step_last = evs_t.last().map(|e| (t, (*e).clone()));
+        // operations that started and completed within this step (no choice point in between)
+        for (i, e) in evs_t.iter().enumerate() {
+            if e.kind == "E" && e.val != "skip" {
+                if let Some(sidx) = evs_t[..i].iter().rposition(|x| x.kind == "S" && x.op == e.op) {
+                    // the first S of a task's very first step is preceded by the choice that started the task
+                    let first_of_task = sidx > 0 && evs_t[sidx - 1].kind == "B";
+                    if !first_of_task {
+                        if let Some((op, _)) = op_for_label(p, t, &e.op) {
+                            let kind = format!("{:?}", op).split('(').next().unwrap_or("").to_string();
+                            let ent = stats.same_step.entry(kind).or_insert((0, format!("body {} {}={}", t, e.op, e.val)));
+                            ent.0 += 1;
+                        }
+                    }
+                }
+            }
+        }
         let completions = evs_t.iter().filter(|e| e.kind == "E").count();
         if completions >= 2 {
             stats.multi_effect_steps += 1;
